@@ -179,6 +179,9 @@ func runBatch(t *testing.T, job *Job, known map[string]bool, enc *json.Encoder) 
 				nontrivial = true
 			}
 		}
+		if len(res.Probes) > 0 {
+			nontrivial = true // a named rare-event probe was hit (operation-sequence families have no scheduling decisions)
+		}
 		if nontrivial || f.Enumerated {
 			sum.ILHashes = append(sum.ILHashes, res.ILHash+caseHash(spec))
 		}
